@@ -102,6 +102,19 @@ impl Sweep {
     }
 }
 
+/// Runs one shard of a sweep; a panic that escapes the per-call guards (i.e. one the harness did
+/// not anticipate) is reported as a violation of its own class instead of killing the run.
+pub fn guarded(tag: &str, f: impl FnOnce() -> Sweep) -> Sweep {
+    match mck::catch(f) {
+        Ok(s) => s,
+        Err(p) => {
+            let mut s = Sweep::new();
+            s.fail(format!("panic:unguarded:{tag}:{}", p.location), tag.to_string(), format!("a panic escaped the per-call guards of a shard of '{tag}' at {} ({}); the shard's other results are lost", p.location, p.message), json!({"kind": "unguarded", "tag": tag}));
+            s
+        },
+    }
+}
+
 pub fn merge_all(v: Vec<Sweep>) -> Sweep {
     let mut s = Sweep::new();
     for o in v {
@@ -115,6 +128,7 @@ pub fn merge_all(v: Vec<Sweep>) -> Sweep {
 
 /// what `Air::BaseField` needs
 pub trait Base: StarkField + ExtensibleField<2> + ExtensibleField<3> {
+    #[allow(dead_code)]
     const NAME: &'static str;
 }
 impl Base for winter_math::fields::f64::BaseElement {
@@ -152,9 +166,6 @@ impl<E: FieldElement> r2::F for W<E> {
     fn is_zero(&self) -> bool {
         self.0 == E::ZERO
     }
-}
-pub fn w<E: FieldElement>(v: &[E]) -> Vec<W<E>> {
-    v.iter().map(|e| W(*e)).collect()
 }
 
 /// x^k by repeated multiplication (k is small everywhere this is used)
@@ -291,12 +302,11 @@ impl Desc {
         }
     }
 
-    pub fn step_mask(&self, n: usize) -> u128 {
-        let mut m = 0u128;
+    pub fn step_mask(&self, n: usize) -> Mask {
+        assert!(n <= 512, "step masks hold 512 steps");
+        let mut m = [0u128; 4];
         for s in self.steps(n) {
-            if s < 128 {
-                m |= 1 << s;
-            }
+            m[s / 128] |= 1 << (s % 128);
         }
         m
     }
@@ -346,6 +356,12 @@ impl Desc {
             Kind::Sequence => format!("sequence(col {}, first {}, stride {}, {} values)", self.col, self.first, self.stride, self.len),
         }
     }
+}
+
+pub type Mask = [u128; 4];
+
+pub fn masks_meet(a: &Mask, b: &Mask) -> bool {
+    (0..4).any(|i| a[i] & b[i] != 0)
 }
 
 pub fn pow2s(lo: usize, hi: usize) -> Vec<usize> {
